@@ -702,7 +702,9 @@ pub fn c16(ctx: &mut Ctx, tier: &str, seed: u64) {
             let de = gen::e(!src_win);
             let rp = format!("conv {} {} {}", se, de, hex(s));
             at(rp.clone());
-            let cs = comps(src_win, s);
+            // the source is classified (prefix, names, the K4 class) by the GRAMMAR's reading of it, not by the
+            // implementation's: a parser that cuts a prefix short must not move the input out of the clause
+            let cs = spec_comps(src_win, s);
             // same encoding: same bytes
             let same: Vec<u8> = if src_win { WindowsPath::new(s).with_windows_encoding().into_vec() } else { UnixPath::new(s).with_unix_encoding().into_vec() };
             ctx.case(nontrivial_path(&cs), (src_win, s));
@@ -870,6 +872,17 @@ pub fn c17(ctx: &mut Ctx, tier: &str, seed: u64) {
                 }
             }
         }
+        // an invalid name that a later `..` cancels is still an invalid name (a verdict computed on what
+        // survives normalisation would miss it)
+        for fb in if win { spec::WINDOWS_FORBIDDEN } else { spec::UNIX_FORBIDDEN } {
+            let sp = if win { b'\\' } else { b'/' };
+            if *fb == sp || (win && *fb == b'/') {
+                continue;
+            }
+            d.push(vec![*fb, sp, b'.', b'.']);
+            d.push(vec![b'a', *fb, b'b', sp, b'.', b'.', sp, b'c']);
+            d.push(vec![b'd', sp, *fb, sp, b'.', b'.', sp, b'.', b'.', sp, b'e', sp, b'f']);
+        }
         d.extend(magic_paths(win, 1024));
         d.extend(big_inputs(win));
         let d = dedup_keep_order(d);
@@ -945,15 +958,26 @@ pub fn c17(ctx: &mut Ctx, tier: &str, seed: u64) {
                     ctx.fail("validity-verdicts-agree-across-copies", None, rp.clone(), format!("is_valid {}", got));
                 }
             }
-            let (_, r) = push_checked_b(win, b"base", s);
-            let inv = matches!(r, Err(CheckedPathError::InvalidFilename));
-            // InvalidFilename is the verdict iff the first offending component is an invalid name
+            // the verdict is a function of the argument alone: the same onto every kind of base (relative, empty,
+            // rooted, each prefix kind, verbatim in both spellings), byte and UTF-8 copy
+            let bases: &[&[u8]] = if win { &[b"base", b"", b"C:\\", br"\\?\C:\d", br"\\?\pics", br"\\?\UNC\s\h", b"//?/C:/d", br"\\s\h\", br"\\.\dev"] } else { &[b"base", b"", b"/"] };
             let first_offender_is_name = spec::verdict(&cs, win) == spec::Verdict::InvalidFilename;
-            if inv != first_offender_is_name {
-                ctx.fail("invalid-filename-verdict-agrees", None, format!("pushc {} {} {}", e, hex(b"base"), hex(s)), format!("{:?}", r));
-            }
-            if !want && r.is_ok() {
-                ctx.fail("checked-accepts-invalid-name", None, format!("pushc {} {} {}", e, hex(b"base"), hex(s)), String::new());
+            for base in bases {
+                let (_, r) = push_checked_b(win, base, s);
+                let inv = matches!(r, Err(CheckedPathError::InvalidFilename));
+                // InvalidFilename is the verdict iff the first offending component is an invalid name
+                if inv != first_offender_is_name {
+                    ctx.fail("invalid-filename-verdict-agrees", None, format!("pushc {} {} {}", e, hex(base), hex(s)), format!("{:?}", r));
+                }
+                if !want && r.is_ok() {
+                    ctx.fail("checked-accepts-invalid-name", None, format!("pushc {} {} {}", e, hex(base), hex(s)), String::new());
+                }
+                if let (Ok(st), Ok(bs)) = (std::str::from_utf8(s), std::str::from_utf8(base)) {
+                    let ur = if win { Utf8WindowsPathBuf::from(bs).push_checked(st) } else { Utf8UnixPathBuf::from(bs).push_checked(st) };
+                    if ur != r {
+                        ctx.fail("invalid-filename-verdict-agrees", None, format!("pushc {} {} {}", e, hex(base), hex(s)), format!("UTF-8 copy {:?}, byte copy {:?}", ur, r));
+                    }
+                }
             }
         }
     }
